@@ -48,6 +48,20 @@ def c01(run, scratch):
     tok = sum(1 for x in trows if x[3] == 'ok')
     _require(tok > 0.5 * len(trows), 'text front end refused most legal lines (%d of %d accepted)' % (tok, len(trows)))
     _judge_rows(run, trows, scratch, lambda c, row: 'DecodesToSource' in c or c == 'AcceptedWhenLegal', 'text')
+    # fence sets in the standard letter spelling (i o r w): the assembler may refuse them (it does), but a spelling it accepts
+    # has to encode the sets it names (i = 8, o = 4, r = 2, w = 1 in the RISC-V manual)
+    def letters(v):
+        return ''.join(c for c, b in zip('iorw', (8, 4, 2, 1)) if v & b) or '0'
+    lrows = []
+    for a_ in range(16):
+        for b_ in range(16):
+            for line in ('fence %s, %s' % (letters(a_), letters(b_)), 'fence %s %s' % (letters(a_).upper(), letters(b_))):
+                rec = impl.assemble_recorded(line + '\n', compress=False)
+                if rec['status'] == 'ok' and len(rec['out']) == 4:
+                    lrows.append(enc._row('fence', [a_, b_], 'ok', int.from_bytes(rec['out'], 'little')))
+    if lrows:
+        _judge_rows(run, lrows, scratch, lambda c, row: 'DecodesToSource' in c, 'text, letter-spelled fence sets')
+    run.coverage['letter_spelled_fence_lines_accepted'] = len(lrows)
     accepted = {(x[0], tuple(x[1])) for x in rows if x[3] == 'ok'} | {(x[0], tuple(x[1])) for x in trows if x[3] == 'ok'}
     run.coverage['distinct_nontrivial'] = len(accepted)
     if tier == 'thorough':
